@@ -1,18 +1,445 @@
-(* C14 -- lemmas about Model/Ens.v *)
+(* C14 -- lemmas about Model/Ens.v: the rectangularity invariant over every operation and history, the lens
+   laws of the Conformer view, the iteration theorems, dump / io round trip of rectangular ensembles. *)
 From Coq Require Import List Bool Arith ZArith Lia.
 Import ListNotations.
 From Molli Require Import Model.Ens.
 
+(* ------------------------------------------------------------------ the invariant *)
 Definition Rect (e : ens) : Prop :=
   length (charges e) = length (coords e) /\ length (weights e) = length (coords e) /\
   Forall (fun r => length r = na e) (coords e) /\ Forall (fun r => length r = na e) (charges e).
 
+Definition StoreRect (W : store) : Prop := Forall Rect (enss W).
+
+(* ------------------------------------------------------------------ lists *)
 Lemma Forall_repeat {A} (P : A -> Prop) x k : P x -> Forall P (repeat x k).
 Proof. intros H. induction k; simpl; constructor; auto. Qed.
 
+Lemma set_nth_length {A} k (x : A) l : length (set_nth k x l) = length l.
+Proof. revert k; induction l as [|y l IH]; intros [|k]; simpl; auto. Qed.
+
+Lemma nth_error_set_nth_eq {A} k (x : A) l : k < length l -> nth_error (set_nth k x l) k = Some x.
+Proof.
+  revert k; induction l as [|y l IH]; intros [|k] H; simpl in *; try lia; auto; try (apply IH; lia).
+Qed.
+
+Lemma nth_error_set_nth_neq {A} k j (x : A) l : j <> k -> nth_error (set_nth k x l) j = nth_error l j.
+Proof.
+  revert k j; induction l as [|y l IH]; intros [|k] [|j] H; simpl in *; auto; try lia; try (apply IH; lia).
+Qed.
+
+Lemma Forall_set_nth {A} (P : A -> Prop) k x l : Forall P l -> P x -> Forall P (set_nth k x l).
+Proof.
+  intros Hl Hx. revert k; induction Hl as [|y l Hy Hl IH]; intros [|k]; simpl; constructor; auto.
+Qed.
+
+Lemma set_nth_same {A} k (x : A) l : nth_error l k = Some x -> set_nth k x l = l.
+Proof.
+  revert k; induction l as [|y l IH]; intros [|k] H; simpl in *; try discriminate; auto.
+  - congruence.
+  - f_equal; auto.
+Qed.
+
+Lemma zipw_length {A B C} (f : A -> B -> C) l1 l2 : length l1 = length l2 -> length (zipw f l1 l2) = length l2.
+Proof.
+  revert l2; induction l1 as [|a l1 IH]; intros [|b l2] H; simpl in *; try discriminate; auto.
+Qed.
+
+Lemma Forall_zipw {A B C} (P : C -> Prop) (Q : B -> Prop) (f : A -> B -> C) l1 l2 :
+  (forall a b, Q b -> P (f a b)) -> Forall Q l2 -> Forall P (zipw f l1 l2).
+Proof.
+  intros Hf Hq. revert l1; induction Hq as [|b l2 Hb Hq IH]; intros [|a l1]; simpl; constructor; auto.
+Qed.
+
+Lemma py_index_lt len i j : py_index len i = Some j -> j < len.
+Proof.
+  unfold py_index. intros H.
+  destruct (0 <=? i)%Z eqn:E1.
+  - destruct (i <? Z.of_nat len)%Z eqn:E2; inversion H; subst. lia.
+  - destruct (- Z.of_nat len <=? i)%Z eqn:E3; inversion H; subst. lia.
+Qed.
+
+Lemma py_index_nat len j : j < len -> py_index len (Z.of_nat j) = Some j.
+Proof.
+  intros H. unfold py_index.
+  destruct (0 <=? Z.of_nat j)%Z eqn:E1; [|lia].
+  destruct (Z.of_nat j <? Z.of_nat len)%Z eqn:E2; [|lia]. f_equal. lia.
+Qed.
+
+Lemma lens_forallb {A} (a : nat) (l : list (list A)) :
+  forallb (fun r => length r =? a) l = true <-> Forall (fun r => length r = a) l.
+Proof.
+  rewrite forallb_forall, Forall_forall. split; intros H x Hx.
+  - apply Nat.eqb_eq; auto.
+  - apply Nat.eqb_eq; auto.
+Qed.
+
+Lemma shape2_spec {A} k a (v : list (list A)) :
+  shape2 k a v = true <-> length v = k /\ Forall (fun r => length r = a) v.
+Proof.
+  unfold shape2. rewrite andb_true_iff, Nat.eqb_eq, lens_forallb. tauto.
+Qed.
+
+(* ---- rows *)
+Lemma upd_row_spec {A} k f (l l' : list (list A)) : upd_row k f l = Some l' ->
+  exists j r r', py_index (length l) k = Some j /\ nth_error l j = Some r /\ f r = Some r' /\ l' = set_nth j r' l.
+Proof.
+  unfold upd_row. intros H.
+  destruct (py_index (length l) k) as [j|] eqn:E1; [|discriminate].
+  destruct (nth_error l j) as [r|] eqn:E2; [|discriminate].
+  destruct (f r) as [r'|] eqn:E3; [|discriminate].
+  inversion H; subst. eauto 8.
+Qed.
+
+Lemma upd_row_some {A} k f (l : list (list A)) j r r' :
+  py_index (length l) k = Some j -> nth_error l j = Some r -> f r = Some r' -> upd_row k f l = Some (set_nth j r' l).
+Proof. unfold upd_row. intros -> -> ->. reflexivity. Qed.
+
+Lemma get_row_spec {A} k (l : list (list A)) r :
+  get_row k l = Some r <-> exists j, py_index (length l) k = Some j /\ nth_error l j = Some r.
+Proof.
+  unfold get_row. destruct (py_index (length l) k) as [j|]; split.
+  - eauto.
+  - intros [j' [E H]]. inversion E; subst; auto.
+  - discriminate.
+  - intros [j' [E _]]. discriminate.
+Qed.
+
+Lemma set_elem_length {A} a (x : A) r r' : set_elem a x r = Some r' -> length r' = length r.
+Proof.
+  unfold set_elem. destruct (py_index (length r) a); intros H; inversion H; subst. apply set_nth_length.
+Qed.
+
+(* the generic lens facts about one array: writing row k makes row k read back as written, leaves every
+   other row alone and keeps the number of rows *)
+Lemma upd_row_length {A} k f (l l' : list (list A)) : upd_row k f l = Some l' -> length l' = length l.
+Proof. intros H. apply upd_row_spec in H as (j & r & r' & _ & _ & _ & ->). apply set_nth_length. Qed.
+
+Lemma upd_row_get_same {A} k f (l l' : list (list A)) : upd_row k f l = Some l' ->
+  exists r, get_row k l = Some r /\ get_row k l' = f r.
+Proof.
+  intros H. apply upd_row_spec in H as (j & r & r' & E1 & E2 & E3 & ->).
+  exists r. split.
+  - apply get_row_spec; eauto.
+  - rewrite E3. apply get_row_spec. exists j. rewrite set_nth_length. split; auto.
+    apply nth_error_set_nth_eq. eapply py_index_lt; eauto.
+Qed.
+
+Lemma upd_row_get_other {A} k k' f (l l' : list (list A)) : upd_row k f l = Some l' ->
+  py_index (length l) k' <> py_index (length l) k -> get_row k' l' = get_row k' l.
+Proof.
+  intros H Hne. apply upd_row_spec in H as (j & r & r' & E1 & E2 & E3 & ->).
+  unfold get_row. rewrite set_nth_length.
+  destruct (py_index (length l) k') as [j'|] eqn:E; auto.
+  apply nth_error_set_nth_neq. congruence.
+Qed.
+
+Lemma upd_row_Forall {A} (a : nat) k f (l l' : list (list A)) :
+  (forall r r', length r = a -> f r = Some r' -> length r' = a) ->
+  Forall (fun r => length r = a) l -> upd_row k f l = Some l' -> Forall (fun r => length r = a) l'.
+Proof.
+  intros Hf Hl H. apply upd_row_spec in H as (j & r & r' & E1 & E2 & E3 & ->).
+  apply Forall_set_nth; auto. eapply Hf; eauto.
+  rewrite Forall_forall in Hl. apply Hl. eapply nth_error_In; eauto.
+Qed.
+
+(* ------------------------------------------------------------------ Rect: constructors *)
 Lemma Rect_alloc k a : Rect (alloc k a).
 Proof.
   unfold Rect, alloc; simpl. rewrite !repeat_length. repeat split.
   - apply Forall_repeat. apply repeat_length.
   - apply Forall_repeat. apply repeat_length.
+Qed.
+
+Lemma rect_b_iff e : rect_b e = true <-> Rect e.
+Proof.
+  unfold rect_b, Rect. rewrite !andb_true_iff, !Nat.eqb_eq, !lens_forallb. tauto.
+Qed.
+
+Lemma set_all_coords_rect v e e' : Rect e -> set_all_coords v e = Some e' -> Rect e'.
+Proof.
+  unfold set_all_coords. intros (H1 & H2 & H3 & H4) H.
+  destruct (shape2 _ _ v) eqn:E; inversion H; subst. apply shape2_spec in E as [E1 E2].
+  unfold Rect; simpl. repeat split; auto; congruence.
+Qed.
+
+Lemma set_all_charges_rect v e e' : Rect e -> set_all_charges v e = Some e' -> Rect e'.
+Proof.
+  unfold set_all_charges. intros (H1 & H2 & H3 & H4) H.
+  destruct (shape2 _ _ v) eqn:E; inversion H; subst. apply shape2_spec in E as [E1 E2].
+  unfold Rect; simpl. repeat split; auto; congruence.
+Qed.
+
+Lemma set_all_weights_rect v e e' : Rect e -> set_all_weights v e = Some e' -> Rect e'.
+Proof.
+  unfold set_all_weights. intros (H1 & H2 & H3 & H4) H.
+  destruct (length v =? _) eqn:E; inversion H; subst. apply Nat.eqb_eq in E.
+  unfold Rect; simpl. repeat split; auto; congruence.
+Qed.
+
+Lemma opt_apply_rect {A} (x : option A) f e e' :
+  (forall v e e', Rect e -> f v e = Some e' -> Rect e') -> Rect e -> opt_apply x f e = Some e' -> Rect e'.
+Proof.
+  intros Hf He H. destruct x as [v|]; simpl in H.
+  - eapply Hf; eauto.
+  - inversion H; subst; auto.
+Qed.
+
+Lemma init_base_rect W src k a e : StoreRect W -> init_base W src k a = CSome e -> Rect e.
+Proof.
+  intros HW H. destruct src as [|a'|gs|j|g]; cbn [init_base] in H.
+  - inversion H; subst. apply Rect_alloc.
+  - inversion H; subst. apply Rect_alloc.
+  - destruct (all_some (map (resolve W) gs)) as [[|[c0 q0] rest]|] eqn:E; try discriminate.
+    + inversion H; subst. apply Rect_alloc.
+    + destruct (all_some (map snd ((c0, q0) :: rest))) as [qs|] eqn:E2; try discriminate.
+      destruct (set_all_charges qs _) as [e1|] eqn:E3; try discriminate.
+      destruct (set_all_coords _ e1) as [e2|] eqn:E4; try discriminate.
+      inversion H; subst.
+      eapply set_all_coords_rect; [|eauto]. eapply set_all_charges_rect; [|eauto]. apply Rect_alloc.
+  - destruct (nth_error (enss W) j) as [o|] eqn:E; inversion H; subst.
+    assert (Ho : Rect o). { unfold StoreRect in HW. rewrite Forall_forall in HW. apply HW. eapply nth_error_In; eauto. }
+    destruct Ho as (H1 & H2 & H3 & H4). unfold Rect; simpl. auto.
+  - destruct (resolve W g) as [[c [q|]]|]; try discriminate.
+    + destruct k as [[|k']|]; try discriminate; inversion H; subst; apply Rect_alloc.
+    + inversion H; subst. apply Rect_alloc.
+Qed.
+
+Lemma init_rect W src k a xc xq xw e : StoreRect W -> init W src k a xc xq xw = CSome e -> Rect e.
+Proof.
+  intros HW H. unfold init in H.
+  destruct (init_base W src k a) as [e0| |] eqn:E0; try discriminate.
+  destruct (opt_apply xc set_all_coords e0) as [e1|] eqn:E1; try discriminate.
+  destruct (opt_apply xq set_all_charges e1) as [e2|] eqn:E2; try discriminate.
+  destruct (opt_apply xw set_all_weights e2) as [e3|] eqn:E3; try discriminate.
+  inversion H; subst.
+  eapply opt_apply_rect; [apply set_all_weights_rect| |eauto].
+  eapply opt_apply_rect; [apply set_all_charges_rect| |eauto].
+  eapply opt_apply_rect; [apply set_all_coords_rect| |eauto].
+  eapply init_base_rect; eauto.
+Qed.
+
+Lemma ser_roundtrip_rect W e0 e : StoreRect W -> ser_roundtrip W e0 = CSome e -> Rect e.
+Proof.
+  intros HW H. unfold ser_roundtrip in H.
+  destruct (reshape _ _ (concat (coords e0))); try discriminate.
+  destruct (reshape _ _ (concat (charges e0))); try discriminate.
+  eapply init_rect; eauto.
+Qed.
+
+(* ------------------------------------------------------------------ Rect: every operation on one ensemble *)
+Lemma map_coords_rect f e : Rect e -> Rect (map_coords f e).
+Proof.
+  intros (H1 & H2 & H3 & H4). unfold Rect, map_coords; simpl. rewrite !map_length. repeat split; auto.
+  rewrite Forall_forall in *. intros r Hr. apply in_map_iff in Hr as [r0 [<- Hr0]]. rewrite map_length. auto.
+Qed.
+
+Lemma per_conf_rect {B} (g : B -> row3 -> row3) ps e e' : Rect e -> per_conf g ps e = Some e' -> Rect e'.
+Proof.
+  intros He H. unfold per_conf in H.
+  destruct (length ps =? nc e) eqn:E.
+  - inversion H; subst. apply Nat.eqb_eq in E. unfold nc in E.
+    destruct He as (H1 & H2 & H3 & H4). unfold Rect; simpl. rewrite zipw_length by auto. repeat split; auto.
+    eapply Forall_zipw; [|exact H3]. intros p r Hr. simpl in *. rewrite map_length. auto.
+  - destruct ps as [|p [|]]; try discriminate. inversion H; subst. apply map_coords_rect; auto.
+Qed.
+
+Lemma e_extend_rect gs e e' : Rect e -> e_extend gs e = Some e' -> Rect e'.
+Proof.
+  intros (H1 & H2 & H3 & H4) H. unfold e_extend in H.
+  destruct gs as [|g0 gs0]; [discriminate|]. remember (g0 :: gs0) as gs eqn:Egs. clear Egs.
+  destruct (forallb _ gs) eqn:E; inversion H; subst. clear H.
+  rewrite forallb_forall in E.
+  unfold Rect; simpl. rewrite !app_length, !map_length, repeat_length. repeat split; try lia.
+  - apply Forall_app; split; auto. rewrite Forall_forall. intros r Hr.
+    apply in_map_iff in Hr as [g [<- Hg]]. apply E in Hg. apply andb_true_iff in Hg as [Hg _]. apply Nat.eqb_eq; auto.
+  - apply Forall_app; split; auto. rewrite Forall_forall. intros r Hr.
+    apply in_map_iff in Hr as [g [<- Hg]]. apply E in Hg. apply andb_true_iff in Hg as [_ Hg]. apply Nat.eqb_eq; auto.
+Qed.
+
+Lemma e_extend_ens_rect o e e' : Rect o -> Rect e -> e_extend_ens o e = Some e' -> Rect e'.
+Proof.
+  intros (O1 & O2 & O3 & O4) (H1 & H2 & H3 & H4) H. unfold e_extend_ens in H.
+  destruct (na o =? na e) eqn:E; inversion H; subst. apply Nat.eqb_eq in E.
+  unfold Rect; simpl. rewrite !app_length. repeat split; try lia.
+  - apply Forall_app; split; auto. rewrite <- E; auto.
+  - apply Forall_app; split; auto. rewrite <- E; auto.
+Qed.
+
+Lemma with_coords_rect e cs : Rect e -> length cs = length (coords e) -> Forall (fun r => length r = na e) cs ->
+  Rect (with_coords e cs).
+Proof. intros (H1 & H2 & H3 & H4) L F. unfold Rect; simpl. repeat split; auto; congruence. Qed.
+
+Lemma with_charges_rect e qs : Rect e -> length qs = length (charges e) -> Forall (fun r => length r = na e) qs ->
+  Rect (with_charges e qs).
+Proof. intros (H1 & H2 & H3 & H4) L F. unfold Rect; simpl. repeat split; auto; congruence. Qed.
+
+Lemma upd_coords_rect k f e e' :
+  (forall r r', length r = na e -> f r = Some r' -> length r' = na e) ->
+  Rect e -> option_map (with_coords e) (upd_row k f (coords e)) = Some e' -> Rect e'.
+Proof.
+  intros Hf He H. destruct (upd_row k f (coords e)) as [cs|] eqn:E; inversion H; subst.
+  apply with_coords_rect; auto.
+  - eapply upd_row_length; eauto.
+  - destruct He as (_ & _ & H3 & _). exact (upd_row_Forall (na e) k f (coords e) cs Hf H3 E).
+Qed.
+
+Lemma upd_charges_rect k f e e' :
+  (forall r r', length r = na e -> f r = Some r' -> length r' = na e) ->
+  Rect e -> option_map (with_charges e) (upd_row k f (charges e)) = Some e' -> Rect e'.
+Proof.
+  intros Hf He H. destruct (upd_row k f (charges e)) as [qs|] eqn:E; inversion H; subst.
+  apply with_charges_rect; auto.
+  - eapply upd_row_length; eauto.
+  - destruct He as (_ & _ & _ & H4). exact (upd_row_Forall (na e) k f (charges e) qs Hf H4 E).
+Qed.
+
+Lemma c_map_rect k f e e' : Rect e -> c_map k f e = Some e' -> Rect e'.
+Proof.
+  intros He H. unfold c_map in H. eapply upd_coords_rect; [|exact He|exact H].
+  intros r r' L E. inversion E; subst. rewrite map_length; auto.
+Qed.
+
+Lemma StoreRect_nth W i e : StoreRect W -> nth_error (enss W) i = Some e -> Rect e.
+Proof. unfold StoreRect. rewrite Forall_forall. intros H E. apply H. eapply nth_error_In; eauto. Qed.
+
+(* every operation that mutates one ensemble preserves Rect of that ensemble *)
+Lemma ens_fun_rect_aux W o e e' : StoreRect W -> Rect e ->
+  match ens_fun W o with Some (i, f) => f e = Some e' -> Rect e' | None => True end.
+Proof.
+  intros HW He.
+  destruct o; cbn [ens_fun]; auto; intros Hf.
+  - (* Append *) destruct (resolve W g); [|discriminate]. exact (e_extend_rect _ _ _ He Hf).
+  - (* Extend *) destruct (all_some _); [|discriminate]. exact (e_extend_rect _ _ _ He Hf).
+  - (* ExtendEns *) destruct (nth_error (enss W) j) as [o|] eqn:E; [|discriminate].
+    exact (e_extend_ens_rect _ _ _ (StoreRect_nth _ _ _ HW E) He Hf).
+  - (* Scale *) unfold e_scale in Hf. destruct (scale_ok _ inv); inversion Hf; subst. apply map_coords_rect; auto.
+  - (* Invert *) unfold e_scale in Hf. simpl in Hf. inversion Hf; subst. apply map_coords_rect; auto.
+  - inversion Hf; subst. apply map_coords_rect; auto.
+  - eapply per_conf_rect; eauto.
+  - inversion Hf; subst. apply map_coords_rect; auto.
+  - eapply per_conf_rect; eauto.
+  - eapply set_all_coords_rect; eauto.
+  - eapply set_all_charges_rect; eauto.
+  - eapply set_all_weights_rect; eauto.
+  - (* ConfSetCoords *) unfold c_set_coords in Hf. destruct (length v =? na e) eqn:E; [|discriminate]. apply Nat.eqb_eq in E.
+    eapply upd_coords_rect; [|exact He|exact Hf]. intros r r' _ Hr. inversion Hr; subst; auto.
+  - (* ConfSetCoordElem *) unfold c_set_coord_elem in Hf.
+    eapply upd_coords_rect; [|exact He|exact Hf]. intros r0 r' L Hr. apply set_elem_length in Hr. congruence.
+  - (* ConfSetCharges *) unfold c_set_charges in Hf. destruct (length v =? na e) eqn:E; [|discriminate]. apply Nat.eqb_eq in E.
+    eapply upd_charges_rect; [|exact He|exact Hf]. intros r r' _ Hr. inversion Hr; subst; auto.
+  - (* ConfSetChargeElem *) unfold c_set_charge_elem in Hf.
+    eapply upd_charges_rect; [|exact He|exact Hf]. intros r0 r' L Hr. apply set_elem_length in Hr. congruence.
+  - (* ConfScale *) destruct (scale_ok _ false); [|discriminate]. eapply c_map_rect; eauto.
+  - eapply c_map_rect; eauto.
+  - eapply c_map_rect; eauto.
+Qed.
+
+Lemma ens_fun_rect W o i f e e' :
+  StoreRect W -> ens_fun W o = Some (i, f) -> Rect e -> f e = Some e' -> Rect e'.
+Proof. intros HW Ho He Hf. pose proof (ens_fun_rect_aux W o e e' HW He) as H. rewrite Ho in H. auto. Qed.
+
+(* ... keeps the number of atoms, and -- unless it is append / extend -- the number of conformers *)
+Lemma upd_coords_frame k f e e' : option_map (with_coords e) (upd_row k f (coords e)) = Some e' ->
+  na e' = na e /\ nc e' = nc e /\ charges e' = charges e /\ weights e' = weights e.
+Proof.
+  intros H. destruct (upd_row k f (coords e)) as [cs|] eqn:E; inversion H; subst. unfold nc; simpl.
+  repeat split; auto. eapply upd_row_length; eauto.
+Qed.
+
+Lemma upd_charges_frame k f e e' : option_map (with_charges e) (upd_row k f (charges e)) = Some e' ->
+  na e' = na e /\ nc e' = nc e /\ coords e' = coords e /\ weights e' = weights e.
+Proof.
+  intros H. destruct (upd_row k f (charges e)) as [cs|] eqn:E; inversion H; subst. unfold nc; simpl. auto.
+Qed.
+
+Lemma per_conf_nc {B} (g : B -> row3 -> row3) ps e e' : per_conf g ps e = Some e' -> na e' = na e /\ nc e' = nc e.
+Proof.
+  unfold per_conf. intros H. destruct (length ps =? nc e) eqn:E.
+  - inversion H; subst. apply Nat.eqb_eq in E. unfold nc in *; simpl. rewrite zipw_length; auto.
+  - destruct ps as [|p [|]]; try discriminate. inversion H; subst. unfold nc; simpl. rewrite map_length; auto.
+Qed.
+
+Lemma ens_fun_frame_aux W o e e' :
+  match ens_fun W o with
+  | Some (i, f) => f e = Some e' -> na e' = na e /\ (resizing o = false -> nc e' = nc e)
+  | None => True
+  end.
+Proof.
+  destruct o; cbn [ens_fun resizing]; auto; intros Hf.
+  - destruct (resolve W g); [|discriminate]. unfold e_extend in Hf.
+    destruct (forallb _ _); inversion Hf; subst; simpl. split; auto; discriminate.
+  - destruct (all_some _) as [rs|]; [|discriminate]. unfold e_extend in Hf.
+    destruct (map with_zeros rs); [discriminate|]. destruct (forallb _ _); inversion Hf; subst; simpl. split; auto; discriminate.
+  - destruct (nth_error (enss W) j); [|discriminate]. unfold e_extend_ens in Hf.
+    destruct (_ =? _); inversion Hf; subst; simpl. split; auto; discriminate.
+  - unfold e_scale in Hf. destruct (scale_ok _ inv); inversion Hf; subst. unfold nc; simpl. rewrite map_length; auto.
+  - unfold e_scale in Hf. simpl in Hf. inversion Hf; subst. unfold nc; simpl. rewrite map_length; auto.
+  - inversion Hf; subst. unfold nc; simpl. rewrite map_length; auto.
+  - apply per_conf_nc in Hf. tauto.
+  - inversion Hf; subst. unfold nc; simpl. rewrite map_length; auto.
+  - apply per_conf_nc in Hf. tauto.
+  - unfold set_all_coords in Hf. destruct (shape2 _ _ v) eqn:E; inversion Hf; subst. apply shape2_spec in E as [E _].
+    unfold nc; simpl. auto.
+  - unfold set_all_charges in Hf. destruct (shape2 _ _ v); inversion Hf; subst. unfold nc; simpl; auto.
+  - unfold set_all_weights in Hf. destruct (_ =? _); inversion Hf; subst. unfold nc; simpl; auto.
+  - unfold c_set_coords in Hf. destruct (_ =? _); [|discriminate]. apply upd_coords_frame in Hf. tauto.
+  - unfold c_set_coord_elem in Hf. apply upd_coords_frame in Hf. tauto.
+  - unfold c_set_charges in Hf. destruct (_ =? _); [|discriminate]. apply upd_charges_frame in Hf. tauto.
+  - unfold c_set_charge_elem in Hf. apply upd_charges_frame in Hf. tauto.
+  - destruct (scale_ok _ false); [|discriminate]. unfold c_map in Hf. apply upd_coords_frame in Hf. tauto.
+  - unfold c_map in Hf. apply upd_coords_frame in Hf. tauto.
+  - unfold c_map in Hf. apply upd_coords_frame in Hf. tauto.
+Qed.
+
+Lemma ens_fun_frame W o i f e e' :
+  ens_fun W o = Some (i, f) -> f e = Some e' -> na e' = na e /\ (resizing o = false -> nc e' = nc e).
+Proof. intros Ho Hf. pose proof (ens_fun_frame_aux W o e e') as H. rewrite Ho in H. auto. Qed.
+
+(* ------------------------------------------------------------------ inversion of one step *)
+Inductive Rect_src (W : store) (o : op) (e : ens) : Prop :=
+| RS_new src k a xc xq xw : o = New src k a xc xq xw -> init W src k a xc xq xw = CSome e -> Rect_src W o e
+| RS_ser i e0 : o = Serialise i -> nth_error (enss W) i = Some e0 -> ser_roundtrip W e0 = CSome e -> Rect_src W o e.
+
+Inductive step_shape (W : store) (o : op) (W' : store) (w : out) : Prop :=
+| SS_new e : W' = push_ens W e -> w = ONone -> Rect_src W o e -> step_shape W o W' w
+| SS_iter_new i : o = IterNew i -> nth_error (enss W) i <> None ->
+    W' = mkStore (enss W) (iters W ++ [(i, O)]) -> w = ONone -> step_shape W o W' w
+| SS_iter_yield t i c e : o = IterNext t -> nth_error (iters W) t = Some (i, c) -> nth_error (enss W) i = Some e ->
+    c < nc e -> W' = mkStore (enss W) (set_nth t (i, S c) (iters W)) -> w = OYield (Some c) -> step_shape W o W' w
+| SS_iter_stop t i c e : o = IterNext t -> nth_error (iters W) t = Some (i, c) -> nth_error (enss W) i = Some e ->
+    nc e <= c -> W' = W -> w = OYield None -> step_shape W o W' w
+| SS_ens i f e e' : ens_fun W o = Some (i, f) -> nth_error (enss W) i = Some e -> f e = Some e' ->
+    W' = set_ens W i e' -> w = ONone -> step_shape W o W' w
+| SS_read i f e : ens_fun W o = None -> read_fun o = Some (i, f) -> nth_error (enss W) i = Some e -> f e = Some w ->
+    W' = W -> step_shape W o W' w.
+
+Ltac inv_generic H :=
+  cbn [step ens_fun read_fun] in H;
+  match type of H with context [nth_error (enss ?W) ?i] =>
+    let e := fresh "e" in let E0 := fresh "E0" in
+    destruct (nth_error (enss W) i) as [e|] eqn:E0; [|discriminate];
+    try (destruct (atomless_empty e); [discriminate|]);
+    try (match type of H with context [match ?x with Some _ => _ | None => Err end] =>
+           let E1 := fresh "E1" in destruct x eqn:E1; [|discriminate] end);
+    inversion H; subst;
+    first [ eapply SS_ens; [reflexivity|eassumption|first [eassumption|reflexivity]|reflexivity|reflexivity]
+          | eapply SS_read; [reflexivity|reflexivity|eassumption|first [eassumption|reflexivity]|reflexivity] ]
+  end.
+
+Lemma step_ok_inv W o W' w : step W o = Ok W' w -> step_shape W o W' w.
+Proof.
+  intros H. destruct o; try solve [inv_generic H].
+  - (* New *) cbn [step] in H. destruct (init W src nc_arg na_arg xc xq xw) as [e| |] eqn:E; simpl in H; try discriminate.
+    inversion H; subst. eapply SS_new; eauto. eapply RS_new; eauto.
+  - (* Serialise *) cbn [step] in H. destruct (nth_error (enss W) i) as [e0|] eqn:E0; try discriminate.
+    destruct (ser_roundtrip W e0) as [e| |] eqn:E; simpl in H; try discriminate.
+    inversion H; subst. eapply SS_new; eauto. eapply RS_ser; eauto.
+  - (* IterNew *) cbn [step] in H. destruct (nth_error (enss W) i) eqn:E0; try discriminate.
+    inversion H; subst. eapply SS_iter_new; eauto. congruence.
+  - (* IterNext *) cbn [step] in H. destruct (nth_error (iters W) t) as [[i c]|] eqn:E0; try discriminate.
+    destruct (nth_error (enss W) i) as [e|] eqn:E1; try discriminate.
+    destruct (c <? nc e) eqn:E2; inversion H; subst.
+    + apply Nat.ltb_lt in E2. eapply SS_iter_yield; eauto.
+    + apply Nat.ltb_ge in E2. eapply SS_iter_stop; eauto.
 Qed.
